@@ -180,17 +180,19 @@ func c39hsets() []*c39hset {
 		{"x=v1,v2", "multi-value", http.Header{"x": {"v1", "v2"}}, true},
 		{"x=''", "empty-value", http.Header{"x": {""}}, true},
 		{"''=e", "empty-name", http.Header{"": {"e"}}, true},
-		{"e-acute", "nonascii-lower", http.Header{"é": {"v"}}, true},
-		{"E-acute", "nonascii-upper-samelen", http.Header{"É": {"v"}}, true},
+		{"e-acute", "nonascii-lower", http.Header{"\u00e9": {"v"}}, true},
+		{"E-acute", "nonascii-upper-samelen", http.Header{"\u00c9": {"v"}}, true},
 		// U+212A KELVIN SIGN: 3 bytes, lower-cases to "k" (1 byte)
-		{"kelvin", "lowercase-shrinks", http.Header{"K": {"v"}}, true},
-		// U+0130 (2 bytes) lower-cases to "i̇" (3 bytes); the trailing NUL keeps the
-		// misread value length small (see c39blockMaxLen).
-		{"Idot+NUL", "lowercase-grows", http.Header{"İ\x00": {"v"}}, true},
+		{"kelvin", "lowercase-shrinks", http.Header{"\u212a": {"v"}}, true},
+		// U+023A (2 bytes) lower-cases to U+2C65 (3 bytes); the trailing NUL keeps the value
+		// length that a reader then meets small (see c39walk).
+		{"Astroke+NUL", "lowercase-grows", http.Header{"\u023a\x00": {"v"}}, true},
 		{"x=a NUL b", "nul-in-value", http.Header{"x": {"a\x00b"}}, true},
 		// invalid UTF-8: strings.ToLower replaces the byte by U+FFFD (3 bytes)
 		{"0x80+NULNUL", "invalid-utf8-grows", http.Header{"\x80\x00\x00": {"v"}}, false},
-		{"Idot", "lowercase-grows", http.Header{"İ": {"v"}}, false},
+		{"Astroke", "lowercase-grows", http.Header{"\u023a": {"v"}}, false},
+		// U+0130 (2 bytes) lower-cases to "i" (1 byte)
+		{"Idot", "lowercase-shrinks", http.Header{"\u0130": {"v"}}, false},
 		{"x=[]", "no-values", http.Header{"x": {}}, false},
 		{"big-value", "big-value", http.Header{"x": {c39rep("a", 4096)}}, false},
 		{"20-headers", "many-headers", many, false},
@@ -1032,6 +1034,12 @@ func c39partB2(r *vk.Run) int {
 					continue
 				}
 				idf := func() string { return id }
+				if _, mx, _ := c39walk(fb.block); mx > c39SafeLen {
+					// e.g. name length 0 shifts the fields: the value length is then read from
+					// the name bytes ("a\0\0\0" = 1.6 GB). Same defect as the 2^24 cases; never run.
+					r.Outcome("forged:not-run(shifted-field-would-make-a-giant-length)")
+					continue
+				}
 				z.reset()
 				z1 := z.next(fb.block)
 				z2 := z.next(sentinelBlock)
@@ -1122,7 +1130,7 @@ func c39partB2(r *vk.Run) int {
 
 var c39words = []uint32{
 	0x80030001, 0x80030003, 0x80030004, 0x80030005, 0x80030006, 0x80030007, 0x80030009,
-	0x00000000, 0x00000001, 0x00000004, 0x00000008, 0x0100000c, 0x7fffffff, 0x80030008,
+	0x00000000, 0x00000001, 0x00000004, 0x00000008, 0x0100000c, 0x7f000005, 0x80030008,
 }
 
 func c39partB3(r *vk.Run) (int, int) {
